@@ -667,7 +667,15 @@ func (e *OwnEngine) doCall(fn *ssa.Function, call *ssa.Call) {
 		if sig, ok := cc.Value.Type().Underlying().(*types.Signature); ok {
 			n := 0
 			for _, cand := range e.funcs {
-				if cand.Signature.Recv() != nil || cand.Blocks == nil || !types.Identical(cand.Signature, sig) {
+				if cand.Blocks == nil {
+					continue
+				}
+				if cand.Signature.Recv() != nil {
+					// a method expression (*T).m has the receiver as its first parameter
+					if !methodExprSigMatches(cand.Signature, sig) {
+						continue
+					}
+				} else if !types.Identical(cand.Signature, sig) {
 					continue
 				}
 				if cand.Pkg != c.SLib && cand.Pkg != c.SCLI && !(cand.Parent() != nil) {
@@ -1014,4 +1022,26 @@ func (e *OwnEngine) callPath(to *ssa.Function, roots ...*ssa.Function) string {
 		}
 	}
 	return fname(to)
+}
+
+// methodExprSigMatches: sig is the type of the method expression of a method
+// with signature m: (receiver, m's parameters...) -> m's results.
+func methodExprSigMatches(m, sig *types.Signature) bool {
+	if m.Recv() == nil || sig.Params().Len() != m.Params().Len()+1 || sig.Results().Len() != m.Results().Len() || sig.Variadic() != m.Variadic() {
+		return false
+	}
+	if !types.Identical(sig.Params().At(0).Type(), m.Recv().Type()) {
+		return false
+	}
+	for i := 0; i < m.Params().Len(); i++ {
+		if !types.Identical(sig.Params().At(i+1).Type(), m.Params().At(i).Type()) {
+			return false
+		}
+	}
+	for i := 0; i < m.Results().Len(); i++ {
+		if !types.Identical(sig.Results().At(i).Type(), m.Results().At(i).Type()) {
+			return false
+		}
+	}
+	return true
 }
